@@ -17,6 +17,8 @@ C06(r) == r.eok => /\ r.h_enc1 = r.h_enc2                       \* encoding twic
                    /\ r.dok => /\ r.h_dec1 = r.h_dec2            \* decoding twice: identical geometry in identical order
                                /\ r.trailok /\ r.h_dec1 = r.h_dec_trail   \* bytes after the stream do not matter
                                /\ r.remaining0 = 0 /\ r.remaining = r.trail   \* a successful decode consumes exactly the stream
+                               /\ r.chain_ok                    \* two streams back to back in one buffer: each is read from where the previous one ended
+                               /\ r.trunc_same                  \* a stream cut short: the outcome does not depend on the memory behind the declared size
 \* what the encoder reports describes a stream that decodes, and to exactly those counts
 C09(r) == (r.eok => r.dok) /\ (r.eok /\ r.dok => CountsAgree(r))
 C10(r) == (r.dok /\ r.skip # <<>>) =>
